@@ -168,3 +168,64 @@ Print Assumptions C17_result_bits_ok.
 Example C17_result_bits_example : qpu_row 3 [2; 0]%N (le_to_big 4 3) = Some [1; 0] /\ le_to_big 6 3 = 3.
 Proof. split; reflexivity. Qed.
 Close Scope Z_scope.
+
+(* ---- D1 (cont.): the dispatch as a whole, the regenerated dispatch table, native gates ---- *)
+From VF Require Import Generated.IonqDispatch Vendor.IonQDispatchProofs.
+
+Theorem C17_ionq_dispatch_sound : forall K (O : Ops K), Laws O -> forall (f : ifam) (c : eclass) (r rc g : K),
+  kmul O r rc = k1 O -> class_hyp O c r -> forall m, ionq_emit_matrix O f c r rc = Some m ->
+  gate_model O (GEig (ifam_eig f) r rc g) = mscale O (emit_phase O f c r g) m.
+Proof. exact ionq_dispatch_sound. Qed.
+Print Assumptions C17_ionq_dispatch_sound.
+
+(* what the working tree's serializer emits (regenerated on every run: every family at the special exponents, just inside and
+   outside the 1e-8 window, generic exponents) is the model's decision function: mnemonic, rotation = exponent * pi, wire layout *)
+Theorem C17_ionq_dispatch_table_ok : forallb dispatch_row_ok ionq_dispatch_rows = true.
+Proof. exact ionq_dispatch_table_ok. Qed.
+Print Assumptions C17_ionq_dispatch_table_ok.
+
+Theorem C17_ionq_dispatch_table_covers :
+  forallb (fun fc => existsb (fun r => let '(f, e, _) := r in
+                                       match f, fst fc with
+                                       | FX, FX | FY, FY | FZ, FZ | FXX, FXX | FYY, FYY | FZZ, FZZ | FCNOT, FCNOT | FH, FH | FSWAP, FSWAP =>
+                                           match eclass_of e, snd fc with
+                                           | COne, COne | CHalf, CHalf | CMHalf, CMHalf | CQuarter, CQuarter
+                                           | CMQuarter, CMQuarter | COther, COther => true
+                                           | _, _ => false
+                                           end
+                                       | _, _ => false
+                                       end) ionq_dispatch_rows)
+          (list_prod [FX; FY; FZ; FXX; FYY; FZZ; FCNOT; FH; FSWAP] [COne; CHalf; CMHalf; CQuarter; CMQuarter; COther]) = true.
+Proof. exact ionq_dispatch_table_covers. Qed.
+Print Assumptions C17_ionq_dispatch_table_covers.
+
+Theorem C17_ionq_native_table_ok : forallb native_row_ok ionq_native_rows = true /\ ionq_serializer_atol = ATOL.
+Proof. exact (conj ionq_native_table_ok ionq_atol_ok). Qed.
+Print Assumptions C17_ionq_native_table_ok.
+
+Theorem C17_ionq_native_gpi : forall K (O : Ops K), Laws O -> forall p pc,
+  gate_model O (GGPI p pc) = ionq_gate_matrix O Ngpi [p; pc].
+Proof. exact @ionq_native_gpi. Qed.
+Print Assumptions C17_ionq_native_gpi.
+Theorem C17_ionq_native_gpi2 : forall K (O : Ops K), Laws O -> forall p pc,
+  gate_model O (GGPI2 p pc) = ionq_gate_matrix O Ngpi2 [p; pc].
+Proof. exact @ionq_native_gpi2. Qed.
+Print Assumptions C17_ionq_native_gpi2.
+Theorem C17_ionq_native_ms : forall K (O : Ops K), Laws O -> forall p0 p0c p1 p1c t tc,
+  gate_model O (GIonqMS (kmul O p0 p1) (kmul O p0c p1c) (kmul O p0 p1c) (kmul O p0c p1) t tc)
+  = ionq_gate_matrix O Nms [p0; p0c; p1; p1c; t; tc].
+Proof. exact @ionq_native_ms. Qed.
+Print Assumptions C17_ionq_native_ms.
+Theorem C17_ionq_native_zz : forall K (O : Ops K), Laws O -> forall t tc,
+  gate_model O (GIonqZZ t tc) = ionq_gate_matrix O Nnzz [t; tc].
+Proof. exact @ionq_native_zz. Qed.
+Print Assumptions C17_ionq_native_zz.
+
+(* ---- D4: pauliexp term endianness and the coefficient / time convention, for strings of any length ---- *)
+Theorem C17_pauliexp_endianness : forall K (O : Ops K), Laws O -> forall x xc y yc,
+  kmul O x xc = k1 O -> kmul O y yc = k1 O -> forall (codes : list nat) (neg : bool),
+  cirq_psp_matrix O codes neg x y
+  = mscale O (kmul O x y) (ionq_pauliexp_matrix O (rev codes) (if neg then kmul O x yc else kmul O y xc)
+                                                             (if neg then kmul O y xc else kmul O x yc)).
+Proof. exact @pauliexp_endianness. Qed.
+Print Assumptions C17_pauliexp_endianness.
